@@ -9,6 +9,7 @@ vars == <<stage, f>>
 \* generated in parallel by TLC's workers; cases are emitted at the last stage
 Shapes == CASE ShapeName = "q15" -> {<<2, 2, 2>>, <<3, 2, 1>>, <<2, 3, 1>>, <<1, 3, 2>>}
             [] ShapeName = "q15b" -> {<<2, 3, 2>>}
+            [] ShapeName = "tail" -> {<<3, 3, 1>>}
             [] ShapeName = "wide" -> {<<1, 5, 1>>, <<2, 4, 1>>}
             [] ShapeName = "t15" -> {<<2, 3, 2>>, <<3, 3, 1>>, <<3, 2, 2>>}
             [] ShapeName = "q17" -> {<<2, 2, 2>>, <<3, 1, 3>>, <<3, 2, 1>>}
